@@ -72,6 +72,8 @@ def run(ctx: core.Ctx):
     realtime_pass(ctx)
     b2check.run_b2(ctx, jobs, ["C08"], label="traffic + lifecycle scenarios")
     b2check.run_b2(ctx, jobs_slow, MONS, label="slow (blocking) writes, monitor only", accept=False)
+    b2check.run_b2(ctx, lambda rng, th: [(gen.with_second(rng, gen.conn_traffic(rng, max_threads=2, max_cmds=16)), rng.randrange(10 ** 9), rng.choice([0, 3])) for _ in range(4000 if th else 100)], ["C08two"],
+                   label="a second connection with its own traffic alive in the same process (monitor only, first connection judged)", accept=False)
     b2check.run_b2(ctx, jobs_stall, MONS, label="sender held back at arbitrary statements, monitor only", accept=False)
     ctx.info["rule"] = ("burst patterns from 1..4 callers, idle gaps so that probes interleave, also sessions with faults and close(); each under a seeded schedule with extra line-level preemptions; a case = one schedule; "
                         "non-trivial = distinct (spec, seed)")
